@@ -419,6 +419,11 @@ fn copy_cases(rep: &mut Rep) {
 }
 
 pub fn run(rep: &mut Rep, _seed: u64, big: bool) {
+    // create every statistics key up front: the outstanding-block oracle must not see the
+    // harness's own bookkeeping allocations
+    for k in ["abandon_checks", "completion_checks", "copy_checks", "destructor_count_checks"] {
+        rep.add(k, 0);
+    }
     let nmax = if big { 9 } else { 6 };
     swh_cases::<DTok, DTok>(rep, nmax);
     swh_cases::<DTok, u32>(rep, nmax);
